@@ -30,6 +30,7 @@ ASSUMPTIONS = ['a numerical failure is an ArithmeticError raised at a call bound
 TIERS = {'quick': {'units': 150, 'wall_cap': 75.0, 'unit_timeout': 240.0},
          'thorough': {'units': 3000, 'wall_cap': 1100.0, 'unit_timeout': 600.0}}
 
+MAX_PLANS = {'quick': 700, 'thorough': 2500}
 KINDS = ['conelp', 'conelp', 'coneqp', 'coneqp', 'lp', 'qp', 'socp', 'sdp', 'cpl', 'cpl', 'cpl', 'cp', 'cp']
 NAMED = {'conelp': ['ldl', 'ldl2', 'qr', 'chol', 'chol2'], 'lp': ['ldl', 'ldl2', 'qr', 'chol', 'chol2'],
          'socp': ['ldl', 'ldl2', 'qr', 'chol'], 'sdp': ['ldl', 'ldl2', 'qr', 'chol'],
@@ -467,14 +468,23 @@ def run_unit(seed, tier, r, journal):
     res = {'evaluations': 0, 'nontrivial_digests': [], 'stats': stats, 'violations': [], 'samples': [], 'digest': None}
     bump('instances')
     bump('instances.' + inst['kind'])
-    if base['exc'] is not None or base['status'] is None:
-        # degenerate instance (e.g. rank-deficient by chance): nothing to enumerate
+    if base['exc'] is not None or base['status'] != 'optimal':
+        # degenerate instance (rank-deficient by chance, or the fault-free run itself does not converge):
+        # the oracles are stated relative to a fault-free optimum, nothing to enumerate
         bump('instances.degenerate')
         ulog.add('degenerate')
         res['digest'] = ulog.digest()
         return res
     bump('baseline.' + str(base['status']))
     plans = plans_for(rng, inst, base, tier)
+    cap = MAX_PLANS[tier]
+    if len(plans) > cap:
+        # bound the unit: keep a seeded sample (evidence counts such instances as not exhaustively enumerated)
+        bump('instances.enumeration_sampled_not_exhaustive')
+        idx = sorted(rng.sample(range(len(plans)), cap))
+        plans = [plans[i] for i in idx]
+    else:
+        bump('instances.enumerated_exhaustively')
     sample = None
     for plan in plans:
         out = simulate(inst, plan)
@@ -566,5 +576,6 @@ def shrink(case, still_fails):
 
 
 def coverage_extra(stats):
-    return {'exhaustive_per_instance': True,
-            'exhaustive_note': 'every factor/solve/LAPACK/CHOLMOD call index of each sampled instance was failed; instances are sampled'}
+    return {'exhaustive_per_instance': stats.get('instances.enumeration_sampled_not_exhaustive', 0) == 0,
+            'exhaustive_note': 'every factor/solve/LAPACK/CHOLMOD call index of each sampled instance was failed, except for the '
+                               'instances counted under instances.enumeration_sampled_not_exhaustive (plan list above the per-instance cap: seeded sample); instances are sampled'}
